@@ -124,6 +124,21 @@ def _gen_doc(rng, tier, want_fault=None):
         rng.shuffle(doc["order"])
         doc["fault"] = {"kind": "exec-foreign-lineno", "target": "fl", "cmd": "ForeignLineno"}
         doc["libs"] = True
+    elif r < 0.20:
+        # a plug-in that takes undeclared inputs (passed through as they are), some of them on lines of their own
+        data = [c["name"] for c in model["cmds"] if c["cmd"] not in ("EEMSWrite", "PrintVars")]
+        args = {"InFieldName": rng.choice(data)}
+        for nm in rng.sample(["Note", "Level", "Tags", "Opts"], rng.randint(1, 3)):
+            args[nm] = {"Note": "abc", "Level": 3, "Tags": ["a", "b"], "Opts": 0.5}[nm]
+        fails = rng.random() < 0.5 and not fault     # one located fault per document
+        if fails:
+            args["Fail"] = 1
+        model["cmds"].append({"name": "px", "cmd": "Passthrough", "args": args})
+        doc["order"] = list(range(len(model["cmds"])))
+        rng.shuffle(doc["order"])
+        if fails:
+            doc["fault"] = {"kind": "exec-own-line", "target": "px", "cmd": "Passthrough"}
+        doc["libs"] = True
     elif fault and fault["kind"] in ("unknown-command", "missing-param", "duplicate-result") and rng.random() < 0.35:
         # the offending command is written in EEMS 2.0 form (no result name; NewFieldName gives it); files in that
         # dialect cannot carry OutFileName arguments, so the sinks are left out
@@ -239,10 +254,10 @@ def doc_text(doc):
     fault = doc.get("fault")
     info = {}
     if fault:
-        if fault["kind"] in ("exec-baddata", "exec-foreign-lineno"):
+        if fault["kind"] in ("exec-baddata", "exec-foreign-lineno", "exec-own-line"):
             node = next((n for n in nodes if n["name"] == fault["target"]), None)
-            info = {"node": node, "line_of": ("arg:InFieldName" if fault["kind"] == "exec-baddata" else "exec")} \
-                if node is not None else {"inapplicable": True}
+            where = {"exec-baddata": "arg:InFieldName", "exec-foreign-lineno": "exec", "exec-own-line": "command"}
+            info = {"node": node, "line_of": where[fault["kind"]]} if node is not None else {"inapplicable": True}
         elif fault["kind"].startswith("exec-"):
             info = apply_exec_fault(nodes, fault)
         else:
@@ -462,6 +477,24 @@ def _direct(op, log, res, Program, MPilotError):
                     "%s from a directly constructed command carries line %r (true: %r)" % (want, ln, sorted(lines)))
 
 
+def _check_command_lines(program, ledger, nodes, doc, res, eol):
+    """Every command object of a loaded program carries the line its command starts on."""
+    if doc.get("v2_target"):
+        return
+    bad = []
+    for node, led in zip(nodes, ledger):
+        cmd = program.commands.get(node["name"]) if node.get("name") else None
+        if cmd is None or type(cmd).__name__ != node["cmd"]:
+            continue
+        if cmd.lineno != led["line"]:
+            bad.append("%s = %s: lineno %r, true line %d" % (node["name"], node["cmd"], cmd.lineno, led["line"]))
+    res.probe("command objects of a loaded program compared with the true lines")
+    if bad:
+        extra = any(n["cmd"] == "Passthrough" for n in nodes)
+        res.violate("C11.command", "C11.command wrong-lineno %s %s" % ("with-extra-inputs" if extra else "plain", eol),
+                    "; ".join(bad[:3]))
+
+
 def _load(sc, route, doc, text, ledger, nodes, info, log, res, Program, MPilotError):
     from ..simfs import SimFS
     from ..seams import StdCapture
@@ -482,6 +515,7 @@ def _load(sc, route, doc, text, ledger, nodes, info, log, res, Program, MPilotEr
                     program = Program.from_source(text, libraries=C11_LIBS, working_dir=mf.WORK)
                 else:
                     program = Program.from_source(text, working_dir=mf.WORK)
+                _check_command_lines(program, ledger, nodes, doc, res, eol)
                 if fault and fault.get("param") == "Metadata" and fault["kind"] == "wrong-kind" and \
                         sum(map(ord, fault["target"])) % 2 == 0:
                     # the client reads the metadata of the command before (instead of) running the program
